@@ -74,6 +74,12 @@ CORPUS = [
     ("Error", "em", "T", "plain", "variant-ignore", "plain"),
     ("Error", "en", "N", "plain", "variant-ignore-all-but-one", "plain"),
     ("Error", "en", "T", "plain", "none", "plain"),
+    ("Display", "n2", "T where", "plain", "fmt-nogeneric", "plain"),
+    ("Display", "n2", "T where Req", "plain", "fmt-assoc-const", "plain"),
+    ("Binary", "n2", "N where", "plain", "fmt-const", "plain"),
+    ("Display", "em", "T where Req", "plain", "lit-variants", "plain"),
+    ("Debug", "n2", "'a,T,N where only", "plain", "skip-generic", "plain"),
+    ("Display", "unit", "N where", "plain", "none", "plain"),
     ("Octal", "n2", "T", "raw", "fmt", "plain"),
     ("Display", "n2", "T", "raw", "fmt", "plain"),
 ]
@@ -424,6 +430,8 @@ def run_tie(chk, cases, expansions):
         r = expansions[i]
         if "ok" not in r or getattr(c, "is_companion_twin", False):
             continue
+        if c.item.g["where"] and not where_kept(c, real_headers(r.get("items") or [])):
+            c.where_lost = True         # names the class of the compile error the oracle will see
         if "~" in c.attr and chk.tier == "quick":
             continue        # same headers as the unspelled attribute (tied above); the thorough tier ties these too
         if c.attr.startswith("tyform") and chk.tier == "quick" and (c.naming, c.flavour) != ("plain", "plain"):
@@ -688,8 +696,20 @@ def bisect(name, cases, target_dir):
     return bad
 
 
+def where_kept(c, real):
+    """the user's where-predicates appear, in order, in the where-clause of every generated impl (none for a type without)"""
+    want = [nows(w) for w in c.item.g["where"]]
+    for (_, _, _, where) in real:
+        it = iter(where)
+        if not all(any(w == x for x in it) for w in want):
+            return False
+    return True
+
+
 def classify_error(c, dgs):
     g = c.item.g
+    if getattr(c, "where_lost", False) and any(d["code"] == "E0277" for d in dgs):
+        return "%s:user-where-clause-lost" % c.derive
     codes = sorted({d["code"] or "none" for d in dgs})
     msg = " | ".join(d["msg"] for d in dgs[:3])
     generic = bool(g["params"])
@@ -742,7 +762,11 @@ def run(tier, seed, replay):
     # T-gen: regenerate the template facts, then (re)check the proofs over them
     facts = c01_impl_attrs.generate()
     chk.bump("impl_templates", len(facts["templates"]))
-    st = common.check_proofs(chk, "C01", extra_dirs=("Gen",))
+    # only this property's generated file is scanned (other properties' Gen/*.v are theirs to answer for)
+    st = common.check_proofs(chk, "C01")
+    bad = common.scan_forbidden([os.path.join(common.COQ, "theories", "Gen", "ImplAttrs.v")])
+    if bad:
+        chk.violation("coq-forbidden", {"forbidden": bad}, "forbidden declarations in Gen/ImplAttrs.v: %s" % bad[:5], no_input=True)
 
     # the same closedness, evaluated in the model, so that a new offender is reported by name (the theorem only says "broken")
     new_off = common.coq_eval(["Verif.C01.Model", "Verif.Gen.ImplAttrs"],
